@@ -202,3 +202,115 @@ def replay(case):
     p = case['clipipe']
     with quiet():
         return check_pipeline(p['trans'], p['params'], p['dest_opts'], p['split'], p['src'], p['src_opts'])
+
+
+# ======================================================================== grammar subcommand
+def grammar_corpus():
+    """Five export sentences (labels without digits) built so that
+      - NP -> DT NN occurs below S and below VP (contexts differ at depth 1) and, two levels up, below a
+        continuous and a discontinuous VP (contexts differ in fan-out only);
+      - S -> VP ADV occurs with two linearizations (VP continuous / discontinuous), and S -> X Y Z with X
+        discontinuous once and Y discontinuous once (same labels, same optimal order, different linearization);
+      - one node has five children with equal labels in the middle (DT JJ JJ JJ NN)."""
+    T = model.mk_tokens
+
+    def np(a, b):
+        return ('NP', 'OA', (a, b))
+    s1 = model.MT(1, T(4, words=['saw', 'the', 'dog', 'today'], pos=['VB', 'DT', 'NN', 'ADV']),
+                  ('VROOT', '--', (('S', '--', (('VP', 'HD', (1, np(2, 3))), 4)),)))
+    s2 = model.MT(2, T(4, words=['saw', 'today', 'the', 'dog'], pos=['VB', 'ADV', 'DT', 'NN']),
+                  ('VROOT', '--', (('S', '--', (('VP', 'HD', (1, np(3, 4))), 2)),)))
+    s3 = model.MT(3, T(3, words=['the', 'dog', 'barks'], pos=['DT', 'NN', 'VB']),
+                  ('VROOT', '--', (('S', '--', (np(1, 2), 3)),)))
+    s4 = model.MT(4, T(5, words=['a', 'b', 'c', 'd', 'e'], pos=['TA', 'TB', 'TC', 'TA', 'TC']),
+                  ('VROOT', '--', (('S', '--', (('X', '--', (1, 4)), ('Y', '--', (2,)), ('Z', '--', (3, 5)))),)))
+    s5 = model.MT(5, T(5, words=['a', 'b', 'c', 'd', 'e'], pos=['TA', 'TB', 'TC', 'TB', 'TC']),
+                  ('VROOT', '--', (('S', '--', (('X', '--', (1,)), ('Y', '--', (2, 4)), ('Z', '--', (3, 5)))),)))
+    s6 = model.MT(6, T(5, words=['the', 'big', 'old', 'red', 'house'], pos=['DT', 'JJ', 'JJ', 'JJ', 'NN']),
+                  ('VROOT', '--', (('NP', '--', (1, 2, 3, 4, 5)),)))
+    return [s1, s2, s3, s4, s5, s6]
+
+
+GRAMMAR_RUNS = [
+    ('treebank', None, 'pmcfg', 'tb-pcfg'), ('treebank', None, 'rcg', 'tiger'), ('leftright', None, 'pmcfg', 'g.out'),
+    ('optimal', None, 'rcg', 'negra-lcfrs'), ('optimal', None, 'pmcfg', 'opt'),
+    ('leftright', ['v:1', 'h:1'], 'pmcfg', 'gram'), ('optimal', ['v:1', 'h:2'], 'rcg', 'm'),
+    ('leftright', ['v:2', 'h:0'], 'pmcfg', 'x1'), ('leftright', ['nofanout'], 'pmcfg', 'x2'),
+    ('optimal', ['v:2', 'h:1', 'nofanout'], 'pmcfg', 'x3'), ('leftright', ['v:1', 'h:0', 'nofanout'], 'rcg', 'x4'),
+]
+
+
+def check_grammar_run(gramtype, markov, fmt, dest_name):
+    """`treetools grammar` must write, under the prefix it was given, the files the library writes when the
+    harness reads the same source, extracts, binarizes with the same settings and calls the same writer."""
+    from trees import grammar as _g, grammaroutput as _go, treeinput as _ti
+    case = {'grammar_run': [gramtype, markov, fmt, dest_name]}
+    out = []
+
+    def bad(kind, detail):
+        out.append({'kind': kind, 'where': 'treetools grammar', 'case': case,
+                    'detail': '%s [grammar SRC %s %s --markov %r --dest-format %s]' % (detail, dest_name, gramtype, markov, fmt),
+                    'what': 'the grammar command writes something else than extraction, binarization and writer give: ' + kind})
+    d = os.path.join(scratch(), 'gpipe%d' % os.getpid())
+    os.makedirs(d, exist_ok=True)
+    for old in glob.glob(os.path.join(d, '*')):
+        os.unlink(old)
+    sp = os.path.join(d, 'in.export')
+    with open(sp, 'w', encoding='utf-8') as f:
+        f.write(codecs.encode_export(grammar_corpus()))
+    dest = os.path.join(d, dest_name)
+    ref = os.path.join(d, 'REF')
+    argv = ['grammar', sp, dest, gramtype, '--dest-format', fmt]
+    if markov is not None:
+        argv += ['--markov'] + list(markov)
+    st, so, se, exc = cli.run(argv)
+    try:
+        with quiet():
+            g, lex = {}, {}
+            for t in _ti.export(sp, 'utf-8'):
+                _g.extract(t, g, lex)
+            if gramtype != 'treebank':
+                mo = None
+                if markov is not None:
+                    mo = my_options(markov)
+                    mo.setdefault('v', 1)
+                    mo.setdefault('h', 2)
+                g = _g.binarize(g, reordering=_g.reordering_none if gramtype == 'leftright' else _g.reordering_optimal,
+                                markov_opts=mo)
+            getattr(_go, fmt)(g, lex, ref, 'utf-8')
+    except Exception as e:
+        if st == 0:
+            bad('cli-accepts', 'the library raises %s: %s but the command succeeds' % (type(e).__name__, e))
+        return out
+    if st != 0:
+        bad('cli-failed', 'exit status %r %s' % (st, cli.describe(exc)))
+        return out
+    for ext in (fmt, 'lex'):
+        want = open(ref + '.' + ext, encoding='utf-8').read()
+        path = dest + '.' + ext
+        if not os.path.exists(path):
+            bad('missing-file', '%s was not written; the directory holds %r' % (os.path.basename(path), sorted(os.listdir(d))))
+            continue
+        got = open(path, encoding='utf-8').read()
+        if sorted(got.split('\n')) != sorted(want.split('\n')):
+            gl, wl = set(got.split('\n')), set(want.split('\n'))
+            bad('cli-differs-from-api', '.%s file: lines only in the command output %r, only in the library output %r'
+                % (ext, sorted(gl - wl)[:6], sorted(wl - gl)[:6]))
+    return out
+
+
+def run_grammar(res):
+    for gramtype, markov, fmt, dest_name in GRAMMAR_RUNS:
+        with quiet():
+            vs = check_grammar_run(gramtype, markov, fmt, dest_name)
+        res.evals += 1
+        res.nontrivial += 1
+        res.outcome(('grammar-run', gramtype, repr(markov), fmt, dest_name, len(vs)))
+        for v in vs:
+            res.violation(v['kind'], v['where'], v['case'], v['detail'], v['what'])
+    res.sample({'cli_grammar_runs': ['%s %r %s %s' % r for r in GRAMMAR_RUNS], 'sentences': len(grammar_corpus())})
+
+
+def replay_grammar(case):
+    with quiet():
+        return check_grammar_run(*case['grammar_run'])
